@@ -389,9 +389,8 @@ func Snap(fs afero.Fs, root string) (Snapshot, error) {
 				if rel != "." {
 					cr = rel + "/" + n
 				}
-				if err := walk(filepath.Join(p, n), cr); err != nil {
-					return err
-				}
+				// an entry that vanished between the listing and the lstat is simply not part of the snapshot
+				_ = walk(filepath.Join(p, n), cr)
 			}
 		}
 		return nil
